@@ -7,20 +7,24 @@
    deviations x entry) against the state classes of the receiving node.  Invariants Total (a verdict for
    every shape) and Proportionate (allocation <= Cmul*|frame| + Cadd) are checked on the model; the
    transcription of the current decompressor (BoundedDecode = FALSE) is run too and its counterexample is
-   recorded as a CANDIDATE.  TLC exports every shape.
-2. The Go driver d_wire instantiates every exported shape (seeded filler bytes) and pushes it through the
-   REAL entry points: msgio framing + protocol.Decode + Msg.FromBytes + the handle() switch of the real
-   gossip handler with the real pools behind it, readStatus, and what the node does next with an accepted
-   object (GetProposedBlock -> ValidateBlock, the full-sync applier, ValidateSubChain, the flipper's write
-   loop body), ValidateTx in three modes, ValidateBlock / AddBlock / ValidateSubChain on blocks assembled
-   from individually decodable parts - each under recover, a watchdog and an allocation meter.
+   recorded as a CANDIDATE (decided on the real code only).  TLC exports every shape.
+2. The Go driver d_wire instantiates every exported shape (seeded filler bytes; + a seeded sample of the
+   next larger table; raw/frame shapes several times with fresh bytes) and pushes it through the REAL
+   entry points: msgio framing + protocol.Decode + Msg.FromBytes + the handle() switch of the real gossip
+   handler with the real pools behind it, readStatus, and what the node does next with an accepted object
+   (GetProposedBlock -> ValidateBlock, the full-sync applier, ValidateSubChain, the flipper's write loop
+   body), ValidateTx in three modes, ValidateBlock / AddBlock / ValidateSubChain on blocks assembled from
+   individually decodable parts - each under recover, a watchdog and an allocation meter.  A driver
+   process killed by the node's code (panic on another goroutine, fatal error) is a CRASH of the case in
+   flight; the driver is restarted behind it.  A case without a verdict in time is run again alone with
+   long limits before it counts as a TIMEOUT (wall-clock watchdogs say little on a loaded machine).
 3. TLC validates the recorded trace against spec/Trace_Wire.tla: every line must be a shape of the table;
    Total and Proportionate are evaluated on the OBSERVED outcome; each broken clause is the verdict
    (CLAUSE_BROKEN lines of the postcondition).  The verdict class is compared with the design-level
    expectation too (drift, reported only).
 
 The universal quantifier over ALL byte strings is not reachable: the shape lattice is exhaustive, bytes
-inside a shape are seeded samples (several per raw/frame shape).
+inside a shape are seeded samples.
 """
 import collections
 import concurrent.futures
@@ -71,15 +75,15 @@ def crash_is_harness(log):
     return True
 
 
-def run_shard(ctx, drv, cases_path, shard, nshards, by_id):
+def run_shard(ctx, drv, cases_path, shard, nshards, by_id, tag="", extra=()):
     rows, details = [], []
     after = -1
     for attempt in range(40):
-        base = ctx.path("drv", "s%d_a%d" % (shard, attempt))
+        base = ctx.path("drv" + tag, "s%d_a%d" % (shard, attempt))
         out, det, inf, wd = base + ".trace", base + ".det", base + ".inflight", base + ".wd"
         os.makedirs(wd, exist_ok=True)
         p = vlib.run([drv, "-cases", cases_path, "-out", out, "-details", det, "-inflight", inf, "-shard", str(shard),
-                      "-of", str(nshards), "-after", str(after)], cwd=wd,
+                      "-of", str(nshards), "-after", str(after)] + list(extra), cwd=wd,
                      env={"VERIF_SEED": str(ctx.seed), "VERIF_TIER": ctx.tier}, timeout=3000, check=False)
         if os.path.exists(out):
             rows += vlib.read_ndjson(out)
@@ -112,16 +116,18 @@ def run_shard(ctx, drv, cases_path, shard, nshards, by_id):
     raise vlib.CheckError("driver shard %d crashed more than 40 times" % shard)
 
 
-def run_cases(ctx, drv, cases):
-    by_id = {i: c for i, c in enumerate(cases)}
-    cases_path = ctx.path("cases.ndjson")
+def run_cases(ctx, drv, cases, ids=None, tag="", extra=(), nshards=None):
+    """cases: list of shapes; ids: their case ids (the id seeds the filler bytes), default 0..n-1."""
+    ids = list(range(len(cases))) if ids is None else ids
+    by_id = dict(zip(ids, cases))
+    cases_path = ctx.path("cases%s.ndjson" % tag)
     with open(cases_path, "w") as f:
-        for i, c in enumerate(cases):
-            f.write(json.dumps({"id": i, "c": c}, separators=(",", ":")) + "\n")
-    n = max(2, min(16, ctx.cores))
+        for i in sorted(by_id):
+            f.write(json.dumps({"id": i, "c": by_id[i]}, separators=(",", ":")) + "\n")
+    n = nshards or max(2, min(16, ctx.cores))
     rows, details = [], []
     with concurrent.futures.ThreadPoolExecutor(max_workers=n) as ex:
-        futs = [ex.submit(run_shard, ctx, drv, cases_path, s, n, by_id) for s in range(n)]
+        futs = [ex.submit(run_shard, ctx, drv, cases_path, s, n, by_id, tag, extra) for s in range(n)]
         for fu in futs:
             r, d = fu.result()
             rows += r
@@ -133,6 +139,24 @@ def run_cases(ctx, drv, cases):
     if missing:
         raise vlib.CheckError("dead driver: %d exported cases have no (or several) trace lines, e.g. %s" % (len(missing), missing[:5]))
     return rows, det
+
+
+def confirm_timeouts(ctx, drv, rows, det):
+    """A watchdog measures wall time, which says little on a loaded machine.  Every case that got no verdict in
+    time is run again, alone in its own process and with generous limits; only what still does not come back is
+    a TIMEOUT of the real code."""
+    tmo = [r for r in rows if r["verdict"] == "TIMEOUT"]
+    if not tmo:
+        return rows, det, 0, 0
+    ids = [r["id"] for r in tmo]
+    rows2, det2 = run_cases(ctx, drv, [r["c"] for r in tmo], ids, tag="_confirm", extra=["-watchdog", "120", "-hang", "15"],
+                            nshards=max(1, min(len(tmo), 2 * ctx.cores)))
+    again = {r["id"]: r for r in rows2}
+    rows = [again.get(r["id"], r) for r in rows]
+    det.update(det2)
+    still = sum(1 for r in rows2 if r["verdict"] == "TIMEOUT")
+    ctx.log("watchdog: %d cases without a verdict in the first pass, %d confirmed alone with long limits" % (len(tmo), still))
+    return rows, det, len(tmo), still
 
 
 # ------------------------------------------------------------------------------------------------
@@ -157,8 +181,15 @@ def signature(clause, row, det):
         return "C12:offline-flag-nil-addr"
     if clause == "Total:TIMEOUT" and layer == "msg" and c.get("code") == 8 and c.get("n") == "over":
         return "C12:blocksrange-overlong-answer-blocks-read-loop"
+    # unstructured (raw / mutated) input that runs into the same dereference as a keyed finding is the same finding
+    if bad and "validation.validateActivationTx" in site:
+        return "C12:activation-nil-recipient"
+    if bad and site.endswith("(*Blockchain).applyGlobalParams"):
+        return "C12:offline-flag-nil-addr"
     what = clause.replace("Total:", "")
-    where = site or ("%s:%s" % (layer, c.get("code", c.get("entry", ""))))
+    where = "%s:%s" % (layer, c.get("code", c.get("entry", c.get("comp", ""))))
+    if what in ("PANIC", "CRASH") and site:
+        where = site     # the failing call site is stable for a panic; a hang or an allocation is keyed by its input class
     return "C12:%s:%s" % (what, where)
 
 
@@ -198,14 +229,15 @@ def pick_cases(ctx, quick, rnd):
     have = set(table)
     extra = sorted({canon(c) for c in rb.exports} - have)
     rnd.shuffle(extra)
-    nsample = 4000 if quick else 30000
+    nsample = 4000 if quick else 50000
     sample = extra[:nsample]
     cases = [json.loads(s) for s in table]
     # byte-level sampling inside a shape: raw and frame shapes are instantiated several times
-    reps = 3 if quick else 24
-    rep = [c for c in cases if c["layer"] in ("raw", "frame") and c.get("dlen") != "huge"]
+    reps, mreps = (3, 12) if quick else (24, 200)
+    rep = [c for c in cases if c["layer"] in ("raw", "frame") and c.get("dlen") != "huge" and c.get("raw") != "mutated"]
+    mut = [c for c in cases if c.get("raw") == "mutated"]
     more = [json.loads(s) for s in sample]
-    cases = cases + more + rep * (reps - 1)
+    cases = cases + more + rep * (reps - 1) + mut * (mreps - 1)
     return cases, r, rb, ra, len(table), len(more), cfg, big_cfg
 
 
@@ -242,41 +274,10 @@ def selftest(ctx, rows):
     ctx.log("binding self-test: PANIC outcome, blown-up allocation and mangled shape each rejected at the corrupted line")
 
 
-def main(ctx):
-    quick = ctx.tier == "quick"
-    rnd = random.Random(ctx.seed)
-    drv = vlib.build_driver(ctx, "d_wire", clocks=CLOCKS)
-
-    # 1. model runs: the table (exhaustive) + the next larger table (sampled) + the transcription of the current decoder
-    cases, r, rb, ra, ntable, nsample, cfg, big_cfg = pick_cases(ctx, quick, rnd)
-    candidates = []
-    if not ra.ok:
-        if ra.invariant != "Proportionate":
-            raise vlib.CheckError("as-is Wire model fails on %s (expected at most Proportionate)" % ra.invariant)
-        candidates.append("Proportionate fails in the model with BoundedDecode = FALSE (s2 frame declaring a huge length): candidate, decided on the real code below")
-    ctx.log("model %s: %d generated / %d distinct, %d shapes; %s: %d shapes, %d sampled; %d cases to run; as-is model: %s"
-            % (cfg, r.generated, r.distinct, ntable, big_cfg, len(rb.exports), nsample, len(cases), "candidate " + str(ra.invariant) if not ra.ok else "ok"))
-
-    # 2. the real code
-    t = time.time()
-    rows, det = run_cases(ctx, drv, cases)
+def judge(ctx, rows, det):
+    """TLC validates the trace; every broken clause instance is mapped to the signature of its input and reported."""
     trace = ctx.path("trace.ndjson")
     vlib.write_ndjson(trace, rows)
-    outcome = collections.Counter(r_["verdict"] for r_ in rows)
-    ctx.log("driver: %d cases in %.1fs: %s" % (len(rows), time.time() - t, dict(outcome)))
-    by_layer = collections.Counter(r_["c"]["layer"] for r_ in rows)
-    for layer in ("frame", "raw", "msg", "tx", "block"):
-        if not by_layer.get(layer):
-            raise vlib.CheckError("dead driver: no case of layer %s was run" % layer)
-    if outcome.get("accept", 0) < 50 or outcome.get("rejectDecode", 0) < 50 or outcome.get("rejectValidation", 0) < 50:
-        raise vlib.CheckError("dead driver: verdict classes hardly exercised: %s" % dict(outcome))
-    # vacuity: the well-formed point of every lattice must get through to the code behind the gates
-    accepted = collections.Counter((r_["c"]["layer"], r_["c"].get("code", r_["c"].get("entry"))) for r_ in rows if r_["verdict"] == "accept")
-    dead = [k for k in REQUIRED_ACCEPT if not accepted.get(k)]
-    if dead:
-        raise vlib.CheckError("dead driver: no accepted case for %s (the well-formed objects do not reach the code behind the gates)" % dead)
-
-    # 3. TLC judges the trace
     ok, info = vlib.trace_validate(ctx, "Trace_Wire.tla", "Trace_Wire.cfg", trace, timeout=3000)
     broken = info.get("broken") or []
     if not ok and not broken:
@@ -294,7 +295,68 @@ def main(ctx):
         ex = ctx.path("replay_%s.ndjson" % re.sub(r"[^A-Za-z0-9_.-]", "_", key)[:60])
         vlib.write_ndjson(ex, [dict(row, detail=d) for row, d in items[:200]])
         vlib.report_violation(ctx, key, describe(key, clause, items), replay_src=ex,
-                              payload={"seed": ctx.seed, "shapes": [row["c"] for row, _ in items[:50]], "count": len(items)})
+                              payload={"seed": ctx.seed, "ids": [row["id"] for row, _ in items[:50]],
+                                       "shapes": [row["c"] for row, _ in items[:50]], "count": len(items)})
+    return info, broken, groups
+
+
+def replay(ctx, drv):
+    """tools/check C12 --replay <file>: rerun the recorded shapes with the recorded seed and case ids."""
+    doc = json.load(open(ctx.replay))
+    pl = doc.get("payload") or {}
+    shapes, ids = pl.get("shapes") or [], pl.get("ids")
+    if not shapes:
+        raise vlib.CheckError("replay file carries no shapes")
+    ctx.seed = int(pl.get("seed", doc.get("seed", ctx.seed)))
+    if not ids or len(ids) != len(shapes):
+        ids = None
+    rows, det = run_cases(ctx, drv, shapes, ids)
+    rows, det, _, _ = confirm_timeouts(ctx, drv, rows, det)
+    info, broken, groups = judge(ctx, rows, det)
+    ctx.log("replay: %d shapes, outcomes %s, %d broken clause instances" % (len(rows), dict(collections.Counter(r_["verdict"] for r_ in rows)), len(broken)))
+    return vlib.finish(ctx, "model_checking", {"states": len(rows), "transitions": len(rows), "traces_validated_against_impl": len(rows),
+                                               "samples": shapes[:3], "rule": "replay of recorded shapes"})
+
+
+def main(ctx):
+    quick = ctx.tier == "quick"
+    rnd = random.Random(ctx.seed)
+    drv = vlib.build_driver(ctx, "d_wire", clocks=CLOCKS)
+    if getattr(ctx, "replay", None):
+        return replay(ctx, drv)
+
+    # 1. model runs: the table (exhaustive) + the next larger table (sampled) + the transcription of the current decoder
+    cases, r, rb, ra, ntable, nsample, cfg, big_cfg = pick_cases(ctx, quick, rnd)
+    candidates = []
+    if not ra.ok:
+        if ra.invariant != "Proportionate":
+            raise vlib.CheckError("as-is Wire model fails on %s (expected at most Proportionate)" % ra.invariant)
+        candidates.append("Proportionate fails in the model with BoundedDecode = FALSE (s2 frame declaring a huge length): candidate, decided on the real code below")
+    ctx.log("model %s: %d generated / %d distinct, %d shapes; %s: %d shapes, %d sampled; %d cases to run; as-is model: %s"
+            % (cfg, r.generated, r.distinct, ntable, big_cfg, len(rb.exports), nsample, len(cases), "candidate " + str(ra.invariant) if not ra.ok else "ok"))
+
+    # 2. the real code
+    t = time.time()
+    first = os.environ.get("VERIF_C12_WATCHDOG")     # testing aid: a tiny first-pass watchdog exercises the confirmation pass
+    rows, det = run_cases(ctx, drv, cases, extra=["-watchdog", first] if first else ())
+    rows, det, tmo1, tmo2 = confirm_timeouts(ctx, drv, rows, det)
+    outcome = collections.Counter(r_["verdict"] for r_ in rows)
+    ctx.log("driver: %d cases in %.1fs: %s" % (len(rows), time.time() - t, dict(outcome)))
+    by_layer = collections.Counter(r_["c"]["layer"] for r_ in rows)
+    for layer in ("frame", "raw", "msg", "tx", "block"):
+        if not by_layer.get(layer):
+            raise vlib.CheckError("dead driver: no case of layer %s was run" % layer)
+    if outcome.get("accept", 0) < 50 or outcome.get("rejectDecode", 0) < 50 or outcome.get("rejectValidation", 0) < 50:
+        raise vlib.CheckError("dead driver: verdict classes hardly exercised: %s" % dict(outcome))
+    # vacuity: the well-formed point of every lattice must get through to the code behind the gates
+    accepted = collections.Counter((r_["c"]["layer"], r_["c"].get("code", r_["c"].get("entry"))) for r_ in rows if r_["verdict"] == "accept")
+    dead = [k for k in REQUIRED_ACCEPT if not accepted.get(k)]
+
+    # 3. TLC judges the trace
+    info, broken, groups = judge(ctx, rows, det)
+    if dead and not ctx.violations:
+        # (with violations reported the missing acceptances are their consequence, not a dead driver)
+        raise vlib.CheckError("dead driver: no accepted case for %s (the well-formed objects do not reach the code behind the gates)" % dead)
 
     # 4. binding self-test
     selftest(ctx, rows)
@@ -316,6 +378,7 @@ def main(ctx):
         "cases_by_layer": dict(by_layer),
         "outcomes": dict(outcome),
         "drift_lines": drift,
+        "timeouts_first_pass": tmo1, "timeouts_confirmed": tmo2,
         "design_candidates": candidates,
         "max_alloc_bytes": max(r_["alloc"] for r_ in rows),
         "rule": "every shape of the bounded Wire table (%s) instantiated with seeded filler bytes and run on the real entry points "
@@ -328,5 +391,6 @@ def main(ctx):
         "the queue hop of AsyncTxPool / AsyncKeysPool / the flipper write loop is folded into the call (their loop bodies run on the case goroutine)",
         "the libp2p host is absent: the handler is built by its real constructor with a nil host, the peer by the real newPeer over an in-memory stream",
         "Proportionate bound: alloc <= 64 * |frame| + 16 MiB (process-wide TotalAlloc delta, so background allocation counts against the case)",
-        "validation periods other than None, fast sync and snapshot download are not part of the state classes",
+        "state classes: quick = empty / populated (no ceremony running; the sampled larger table adds the short session); "
+        "thorough = also the four validation periods; fast sync, snapshot download and the consensus engine's own loops are not driven",
     ])
